@@ -14,7 +14,8 @@ RULE = (
     "leaving `ro += msg` must be a MosMergeError; MosCollection.merge(strict=False) must return.  "
     "Failures are bucketed by (exception type, innermost mosromgr frame).  Non-trivial = some "
     "reference is blank/unknown/repeated/self-referential, or the running order holds a story "
-    "without a duration, or the message is an unlisted roElementAction shape.")
+    "without a duration, or the message is an unlisted roElementAction shape."
+    ' Also: a roDelete inside a third of the collections, running orders without roSlug, collections whose roID is blank throughout, stories at child index > 256, encoded documents through from_s3, present-but-empty timing tags, anonymous / twin-ID layouts.')
 ASSUMPTIONS = [
     'messages are schema-shaped: required tags present (roItemMoveMultiple >= 1 itemID, SWAP exactly two IDs, '
     'roStorySend has a storyBody, every story has a storyID and every item an itemID)',
